@@ -2582,14 +2582,16 @@ def l_in(info, a, b):
 
 def cmpxchg(info, a, b):
     e = []
+    # the accumulator of the operand size: al / ax / eax
     c = eax
-    if isinstance(b, ExprSlice): c = ExprSlice(c,b.start,b.stop)
+    if a.get_size() != 32: c = ExprSlice(eax, 0, a.get_size())
     cond = a-c
     e.append(ExprAff(zf, ExprCond(cond,
                                  ExprInt_from(zf, 0),
                                  ExprInt_from(zf, 1))))
+    # on failure the accumulator is loaded with the destination
     e.append(ExprAff(c, ExprCond(cond,
-                                 b,
+                                 a,
                                  c)
                      ))
     e.append(ExprAff(a, ExprCond(cond,
